@@ -160,11 +160,24 @@ CHECKS["C17"] = dict(engine="human", category="proof", design_ref="DESIGN.md §5
          "a per-case predicate computed in the harness.",
     technique="Coq proof of render/resolve round trip at definition level + round-trip search on programs and texts")
 
+CHECKS["C09"] = dict(engine="merkle", category="proof", design_ref="DESIGN.md §5 C09, §11.3",
+    text="Inside a Coq Section over an arbitrary compression function: the root cached by the node constructors, by from_parts, "
+         "by the root-only algebras (ConstructibleCmr, Hiding) and copied by convert equals cmr_spec of the committed structure "
+         "(no witness values, no disconnected branch, no types); hiding any sub-expressions preserves the root; const_word = root "
+         "of the scribe pair tree (all n < 32); injectivity up to hiding under collision-freeness, and without any premise in the "
+         "form 'equal roots give equal structures up to hiding or an explicit compression collision'. SHA-256 on Uint63 primitives "
+         "instantiates it: all 42 regenerated IVs equal the hash of their tag, the constant tables equal hashing from scratch. "
+         "Correspondence node by node with the implementation's roots; all conversion paths compared on the implementation.",
+    note="Trusted: Coq kernel, vm_compute with Uint63 primitive integers (Print Assumptions lists the primitives; one theorem "
+         "also lists the standard-library axioms Uint63.eqb_refl / eqb_correct), translator xlate_ivs.py, harness.",
+    technique="Coq proof parametric in the hash + executable SHA-256 instance + correspondence")
+
 NOT_YET = {}
 
 ENGINES = [
     dict(name="bits", path="coq/Bits", serves_properties=["C13"], kind_free_text="Coq model + proofs of bit reader/writer/natural code"),
     dict(name="budget", path="coq/Budget", serves_properties=["C19"], kind_free_text="Coq model + proofs of budget/padding arithmetic over translated constants"),
+    dict(name="merkle", path="coq/Merkle", serves_properties=["C09"], kind_free_text="Coq SHA-256/tagged-hash library, CMR structure theorems"),
     dict(name="dag", path="coq/Dag", serves_properties=["C18"], kind_free_text="Coq model of dag.rs iterators + refinement proofs"),
     dict(name="human", path="coq/Human", serves_properties=["C17"], kind_free_text="Coq model of naming/rendering/resolving + round-trip proof"),
     dict(name="infer", path="coq/Infer", serves_properties=["C04"], kind_free_text="Coq reference type inference + proofs"),
